@@ -810,7 +810,7 @@ func run(r *core.Run) {
 		"C: every schedule of K runtimes sharing one Program with at most the preemption bound, scheduling point = every evaluation step; invariants evaluated in every global state. Non-trivial: routing programs distinct by text; schedule programs by text")
 	r.Assume("the parsed tree is observed through lisp.SealedASTFingerprint plus an independent structural dump (type, name, numbers, quote/seal flags, positions, children) and lisp.TakeSingletonSnapshot")
 	r.Assume("memory-model effects below evaluation-step granularity are not modelled by the scheduler; the free-running pass under the race detector (check.sh builds it with -race) complements it")
-	if rr := os.Getenv("C09_RACE_RESULT"); rr != "" {
+	if rr := os.Getenv("RACE_RESULT"); rr != "" {
 		r.Extra("D_race_detector_pass", rr)
 	}
 	only := os.Getenv("C09_ONLY")
